@@ -123,13 +123,16 @@ fn content(rng: &mut Rng, class: usize, cols: usize) -> String {
 pub const CARRIERS: [&str; 7] = ["msg", "prefix", "ck", "bar", "pos", "wide_bar", "eta"];
 
 pub fn check_field(width: usize, align: Option<Align>, truncate: bool, msg: &str, class: &'static str, replay: String) -> (Verdict, bool) {
-    check_field_via(0, width, align, truncate, msg, class, replay)
+    check_field_via(0, false, width, align, truncate, msg, class, replay)
 }
 
-pub fn check_field_via(carrier: usize, width: usize, align: Option<Align>, truncate: bool, msg: &str, class: &'static str, replay: String) -> (Verdict, bool) {
+pub fn check_field_via(carrier: usize, second_line: bool, width: usize, align: Option<Align>, truncate: bool, msg: &str, class: &'static str, replay: String) -> (Verdict, bool) {
     let key = CARRIERS[carrier];
+    // (optionally the field sits on the second template line, below a line that ends in a wide message:
+    // every line of a template is laid out on its own)
     let spec = format!(
-        "{{{key}:{}{}{}}}",
+        "{}{{{key}:{}{}{}}}",
+        if second_line { "{wide_msg}\n" } else { "" },
         align.map(|a| a.ch()).unwrap_or(""),
         width,
         if truncate { "!" } else { "" }
@@ -159,7 +162,7 @@ pub fn check_field_via(carrier: usize, width: usize, align: Option<Align>, trunc
     });
     let witness = J::obj().with("template", spec.clone()).with("content", msg).with("class", class).with("carrier", if carrier >= 2 { format!("custom key named {key}") } else { key.to_string() });
     let rendered = match r {
-        Ok(r) => r.lines.first().cloned().unwrap_or_default(),
+        Ok(r) => r.lines.get(second_line as usize).cloned().unwrap_or_default(),
         Err(p) => {
             return (
                 Verdict::Violated(Box::new(Violation {
@@ -254,6 +257,7 @@ fn run_case(seed: u64, idx: u64, exhaustive_n: u64) -> CaseOut {
     let aligns = [None, Some(Align::Left), Some(Align::Center), Some(Align::Right)];
     let (width, align, truncate, class, cols);
     let mut carrier = 0usize;
+    let mut second_line = false;
     if idx < exhaustive_n {
         // exhaustive slice: widths 0..=40 x 4 alignments x truncate on/off x 5 classes x 3 content sizes
         let mut i = idx;
@@ -280,6 +284,7 @@ fn run_case(seed: u64, idx: u64, exhaustive_n: u64) -> CaseOut {
         truncate = rng.chance(1, 2);
         class = rng.usize(5);
         carrier = if rng.chance(1, 2) { 0 } else { rng.usize(CARRIERS.len()) };
+        second_line = rng.chance(1, 5);
         cols = match rng.below(4) {
             0 => 0,
             1 => width.min(400),
@@ -288,7 +293,7 @@ fn run_case(seed: u64, idx: u64, exhaustive_n: u64) -> CaseOut {
         };
     }
     let msg = content(&mut rng, class, cols);
-    let (verdict, measured) = check_field_via(carrier, width, align, truncate, &msg, CLASSES[class], format!("{seed}:{idx}"));
+    let (verdict, measured) = check_field_via(carrier, second_line, width, align, truncate, &msg, CLASSES[class], format!("{seed}:{idx}"));
     let mut co = CaseOut::held(fnv1a(format!("{width}{align:?}{truncate}{msg}").as_bytes()), measured && !msg.is_empty());
     co.verdict = verdict;
     co.count("fields_measured", measured as u64);
